@@ -10,10 +10,13 @@ import (
 )
 
 type tcase struct {
-	fam        string // generator family (evidence / description only)
-	d          []byte
-	base       []byte // authentic datagram this one was derived from (nil: none)
-	signedWith []byte // secret used for signing when it is not the listener's
+	fam         string // generator family (evidence / description only)
+	d           []byte
+	base        []byte // authentic datagram this one was derived from (nil: none)
+	signedWith  []byte // secret used for signing when it is not the listener's
+	mult        int    // overlap workload: how many times this very datagram was sent to the listener (0 = once)
+	noCodeCheck bool   // overlap workload: the handler event cannot be told apart from that of a twin datagram; codes are judged jointly
+	ctx         any    // overlap workload: the episode this datagram was part of (goes into witnesses)
 }
 
 func clone(b []byte) []byte { return append([]byte(nil), b...) }
